@@ -1,7 +1,7 @@
 ----------------------------- MODULE RegSyncGen -----------------------------
 (***************************************************************************)
-(* Scenario generator for C18: behaviours of RegSync (as coded: Anchoring = *)
-(* PlatMatch = "asis") with a history of what the design predicts after     *)
+(* Scenario generator for C18: behaviours of RegSync (as coded today:       *)
+(* Anchoring = PlatMatch = "fixed") with what the design predicts after     *)
 (* every run.  Used with `-simulate`; every finished behaviour is printed   *)
 (* once as a JSON scenario {conf, src, tgt, steps, pred} that the driver    *)
 (* replays on the real regsync binary.  Two sources (constant GenMode):     *)
